@@ -61,6 +61,7 @@ impl<const N: usize> Context<N> {
 pub struct AEADCipherCodec<const N: usize> {
     encoder: Option<ChunkEncoder>,
     decoder: Option<ChunkDecoder>,
+    header: BytesMut,
 }
 
 impl<const N: usize> AEADCipherCodec<N> {
@@ -135,6 +136,16 @@ impl<const N: usize> AEADCipherCodec<N> {
             Some(ref mut decoder) => {
                 let mut dst = BytesMut::new();
                 decoder.decode_payload(src, &mut dst).map_err(|e| anyhow!(e))?;
+                if !context.kind.is_aead_2022() && matches!(session.mode, Mode::Server) && session.address.is_none() {
+                    // the decrypted request stream starts with the target address
+                    self.header.extend_from_slice(&dst);
+                    if self.header.len() < 2 || self.header.len() < address::try_decode_at(&self.header, 0)? {
+                        return Ok(None);
+                    }
+                    dst = std::mem::take(&mut self.header);
+                    session.address = Some(address::decode(&mut dst)?);
+                    return Ok(Some(dst));
+                }
                 if dst.is_empty() { Ok(None) } else { Ok(Some(dst)) }
             }
             None => self.init_payload_decoder(context, session, src),
@@ -151,7 +162,7 @@ impl<const N: usize> AEADCipherCodec<N> {
             let salt = src.split_to(session.identity.salt.len());
             trace!("[tcp] get request salt {}", Base64::encode_string(&salt));
             self.decoder = Some(super::aead::new_decoder(context.kind, &context.key, &salt).map_err(anyhow::Error::msg)?);
-            Ok(None)
+            self.decode(context, session, src)
         }
     }
 
